@@ -134,9 +134,17 @@ func (u *provider) Headroom() int {
 }
 
 func (u *provider) SetDispatchPorts(start, end, redirect uint16) {
+	u.mu.Lock()
+	defer u.mu.Unlock()
 	u.dispatchStart = start
 	u.dispatchEnd = end
 	u.dispatchRedirect = redirect
+	// The internal link may exist already: the router's start-up sets the port range last.
+	if il, ok := u.allLinks[netip.AddrPort{}].(*internalLink); ok {
+		il.dispatchStart = start
+		il.dispatchEnd = end
+		il.dispatchRedirect = redirect
+	}
 }
 
 // AddSvc adds the address for the given service.
@@ -971,12 +979,14 @@ func (l *internalLink) Resolve(p *router.Packet, dst addr.Host, port uint16) err
 		if dstAddr.IsUnspecified() {
 			return router.ErrUnsupportedUnspecifiedAddress
 		}
+		// If the port is outside the configured port range we send to the fixed port. The empty
+		// range is represented as (0, 0) by the topology. Service addresses are not concerned:
+		// they resolve to the registered address and port.
+		if port < l.dispatchStart || port > l.dispatchEnd || l.dispatchEnd == 0 {
+			port = l.dispatchRedirect
+		}
 	default:
 		panic(fmt.Sprintf("unexpected address type returned from DstAddr: %s", dst.Type()))
-	}
-	// if port is outside the configured port range we send to the fixed port.
-	if port < l.dispatchStart && port > l.dispatchEnd {
-		port = l.dispatchRedirect
 	}
 
 	// Packets that get here must have come from an external or a sibling link; neither of which
